@@ -214,10 +214,18 @@ func runC01(c *core.Ctx, o Options) {
 				continue
 			}
 			e2 := &an.SeqEval{Path: p}
-			lens = append(lens, struct {
-				P *an.Path
-				L an.LinLen
-			}{p, e2.EvalLen(p.ResVals[0])})
+			// one entry per case: a helper such as `if len(part) == 0 { return 0 }; return len(part)+1` contributes its own
+			// conditions to the path's
+			for _, lc := range e2.EvalLenCases(p.ResVals[0]) {
+				q := p
+				if len(lc.Atoms) > 0 {
+					q = &an.Path{Atoms: append(append([]an.Atom(nil), p.Atoms...), lc.Atoms...), Blocks: p.Blocks, Return: p.Return, Results: p.Results, ResVals: p.ResVals}
+				}
+				lens = append(lens, struct {
+					P *an.Path
+					L an.LinLen
+				}{q, lc.L})
+			}
 		}
 	}
 	c.Extra["assembly_paths"] = len(inner)
